@@ -324,8 +324,10 @@ def index_lambda_to_high_level_op(expr: IndexLambda) -> HighLevelOp:
     if isinstance(inner_expr, SCALAR_CLASSES):
         return FullOp(inner_expr)
 
-    if isinstance(inner_expr, p.NaN):
-        # full(shape, nan)
+    if (isinstance(inner_expr, p.NaN)
+            and (inner_expr.data_type is None
+                 or np.issubdtype(inner_expr.data_type, np.inexact))):
+        # full(shape, nan); an integer type has no NaN to fill with
         return FullOp(inner_expr.data_type(float("nan"))
                       if inner_expr.data_type else np.nan)
 
